@@ -268,3 +268,22 @@ Proof.
   - injection Hx as <-. injection He as <-. reflexivity.
   - apply IH; auto.
 Qed.
+
+(* MADDPG/MATD3 as repaired also clamp in evaluation mode (the float rescale can overshoot a bound by a rounding
+   error); over the rationals that clamp does not move the policy's action *)
+Lemma maddpg_eval_clamp_identity a box y noise :
+  squashing a = true -> finite_box box = true -> Forall wf_bounds box -> length y = length box ->
+  (forall x, In x y -> in_act_range a x) ->
+  Forall2 Qeq (clip_vec box (maddpg_cont_row false a box y noise)) (maddpg_cont_row false a box y noise).
+Proof. intros. apply clip_vec_id. apply maddpg_cont_eval_in_box; auto. Qed.
+
+(* a masked entry filled with ANY finite constant c wins as soon as every allowed value is below c:
+   -infinity is the only safe fill for the greedy branch *)
+Lemma finite_fill_refuted (c : Q) :
+  exists v legal, In true legal /\ nth_error legal (argmax_first (fill_const c v legal)) = Some false.
+Proof.
+  exists [c - 1; c - 2], [true; false]. split; [left; auto|].
+  unfold fill_const, argmax_first. cbn [combine map argmax_go].
+  assert (ext_lt (Some (c - 1)) (Some c) = true) as -> by (cbn; apply Qltb_true; lra).
+  reflexivity.
+Qed.
